@@ -177,6 +177,19 @@ def _instrument_write(f, path, zpath, before, fault):
             sim.log("fs", "write-close", zpath, None if after is None else sha(after.replace(fs.root.encode(), b"<S>"))[:16])
 
     def close():
+        if fault is not None and fault.kind == "enospc-on-close" and not state.get("close_failed"):
+            # buffered data cannot be flushed: nothing (complete) reaches the disk and close() reports the error
+            state["close_failed"] = True
+            try:
+                f.seek(0)
+                f.truncate(0)
+            except (OSError, ValueError):
+                pass
+            try:
+                real_close()
+            finally:
+                log_close()
+            raise OSError(errno.ENOSPC, "No space left on device (injected at close/flush)")
         try:
             return real_close()
         finally:
